@@ -86,12 +86,15 @@ def build(ck):
     return exe_lib, exe_tr
 
 
-def run_exe(exe, args, outp, env=None, timeout=1500):
+def run_exe(exe, args, outp, env=None, timeout=400):
     e = dict(os.environ)
     if env:
         e.update(env)
     with open(outp, 'w') as f:
-        p = subprocess.run([exe] + [str(a) for a in args], stdout=f, stderr=subprocess.PIPE, text=True, env=e, timeout=timeout)
+        try:
+            p = subprocess.run([exe] + [str(a) for a in args], stdout=f, stderr=subprocess.PIPE, text=True, env=e, timeout=timeout)
+        except subprocess.TimeoutExpired:
+            return 124, 'harness timed out after %d s (the generator under test does not finish the case list)' % timeout
     return p.returncode, p.stderr[-1500:]
 
 
@@ -123,10 +126,11 @@ def run(ck):
     exe_lib, exe_tr = build(ck)
     lib_out = os.path.join(BUILD, 'c13.lib.out')
     tr_out = os.path.join(BUILD, 'c13.trace.out')
-    rc1, err1 = run_exe(exe_lib, [ck.tier, ck.seed], lib_out)
+    tmo = 400 if ck.tier == 'quick' else 1500
+    rc1, err1 = run_exe(exe_lib, [ck.tier, ck.seed], lib_out, timeout=tmo)
     cap = {'PL_TRACE_CAP': '8000' if ck.tier == 'quick' else '20000',
            'PL_TRACE_TOTAL': '500000' if ck.tier == 'quick' else '4000000'}
-    rc2, err2 = run_exe(exe_tr, [ck.tier, ck.seed], tr_out, env=cap)
+    rc2, err2 = run_exe(exe_tr, [ck.tier, ck.seed], tr_out, env=cap, timeout=tmo)
     if rc1 != 0 or rc2 != 0:
         ck.add_violation('harness-crashed', 'harness exited with %d/%d: %s %s' % (rc1, rc2, err1, err2),
                          {'cmd': '%s %s %d' % (exe_lib, ck.tier, ck.seed)}, found_input=False)
